@@ -428,31 +428,45 @@ def r4(run, ctx):
                   'client id frame and payload frame are sent after serialisation', f, f.node)
     # mid flows from json_msg.get('id') unchanged into every reply call of dispatch
     d = ctx.fn(C + 'dispatch')
-    mids = [n for n in ctx.live_nodes(d) if n.kind == 'stmt' and isinstance(n.ast, ast.Assign)
-            and any(isinstance(t, ast.Name) and t.id == 'mid' for t in n.ast.targets)]
-    run.check('R4', len(mids) == 1 and isinstance(mids[0].ast.value, ast.Call) and
-              astq.call_last(mids[0].ast.value) == 'get' and
-              astq.const_value(mids[0].ast.value.args[0]) == 'id',
-              "mid is assigned once, from the request's 'id'", d,
-              (mids[0].ast if mids else d.node))
+    from sa.dataflow import reaching_defs
+
+    def is_get_id(e):
+        return isinstance(e, ast.Call) and astq.call_last(e) == 'get' and e.args and \
+            astq.const_value(e.args[0]) == 'id'
+
+    def _has_other_calls(e):
+        return any(isinstance(x, ast.Call) and x is not e for x in ast.walk(e))
+    mids = [n for n in ctx.live_nodes(d) if any(is_get_id(c) for c in n.calls())]
+    run.check('R4', len(mids) == 1, "the request's 'id' is read once", d,
+              (mids[0].ast if mids else d.node), "mid is not taken from the request's 'id'",
+              construct="mid is assigned once, from the request's 'id'")
     cfg = ctx.cfg(d)
     n = 0
     for fkey in (C + 'dispatch', C + '_dispatch_callback', C + '_dispatch_callback_future'):
         g = ctx.fn(fkey)
+        rdg = reaching_defs(ctx, g)
         for s in ctx.sites_calling(g, [C + 'send_error', C + 'send_ok', C + 'send_response']):
             a0 = s.call.args[0] if s.call.args else None
             n += 1
+            alts = rdg.expand(s.node, a0) if a0 is not None else []
             if fkey == C + 'dispatch' and mids and not ctx.cfg(g).dominates(mids, s.node):
-                run.check('R4', astq.const_value(a0, 'x') is None, 'before the id is known the '
-                          'reply carries a null id', g, s.node.ast)
+                run.check('R4', bool(alts) and all(astq.const_value(a.expr, 'x') is None
+                                                   for a in alts),
+                          'before the id is known the reply carries a null id', g, s.node.ast)
+            elif fkey == C + 'dispatch':
+                run.check('R4', bool(alts) and all(is_get_id(a.expr) for a in alts),
+                          'the reply is sent with the request id', g, s.node.ast,
+                          'a reply is sent with an id other than the request\'s')
             else:
-                run.check('R4', isinstance(a0, ast.Name) and a0.id == 'mid',
+                run.check('R4', bool(alts) and all(a.text() == 'mid' for a in alts),
                           'the reply is sent with the request id', g, s.node.ast,
                           'a reply is sent with an id other than the request\'s')
         for s in ctx.sites_calling(g, [C + '_dispatch_callback']):
             a = s.call.args[2] if len(s.call.args) > 2 else None
-            run.check('R4', isinstance(a, ast.Name) and a.id == 'mid',
-                      'the id is handed to _dispatch_callback', g, s.node.ast)
+            alts = rdg.expand(s.node, a) if a is not None else []
+            run.check('R4', bool(alts) and all(
+                (is_get_id(x.expr) if fkey == C + 'dispatch' else x.text() == 'mid')
+                for x in alts), 'the id is handed to _dispatch_callback', g, s.node.ast)
     # the cast flag, once known, is handed to every reply call (a cast must never be answered)
     casts = [n_ for n_ in ctx.live_nodes(d) if n_.kind == 'stmt' and isinstance(n_.ast, ast.Assign)
              and any(isinstance(t, ast.Name) and t.id == 'cast' for t in n_.ast.targets)]
